@@ -2,6 +2,7 @@ package main
 
 // Harness for the distributed key generation (properties C05, C01).
 //   dkg backend -seed N -tier quick|thorough -out FILE     real TBLS / TPS instances driven message by message
+//   dkg malformed -seed N -tier T -out FILE               malformed / placeholder deviations, records for the C10 check
 //   dkg schedules -pkg ps -seed N -tier T -out FILE       backend DKG under schedules without per-link FIFO (C08, C05)
 //   dkg cancel  -seed N -tier quick|thorough -out FILE     cancellation matrix of the backend KeyGen (C11)
 //   dkg stack   -seed N -tier quick|thorough -out FILE     threshold.LoudScheme / SilentScheme over an in-memory network
@@ -67,6 +68,8 @@ func main() {
 	switch cmd {
 	case "backend":
 		runBackend(newPRNG(*seed), *tier == "thorough", *only)
+	case "malformed":
+		runMalformed(newPRNG(*seed), *tier == "thorough")
 	case "schedules":
 		runSchedules(newPRNG(*seed), *tier == "thorough", *pkgFlag)
 	case "cancel":
